@@ -329,6 +329,41 @@ func run(c *engine.Ctx) {
 		r.chains(5, numeric, "")
 		r.chains(4, []string{"2", "'3'", "n5"}, "")
 	}
+	// depth ladder: the same left-associative chain written flat and with every grouping explicit, for
+	// every number of operands up to 40 (the parenthesised form nests n-1 deep); nested calls and
+	// nested predicates of every depth up to 24 around a two-level expression
+	{
+		deep := func(src string) {
+			if !c.Owns(src) || !c.Case(src) {
+				return
+			}
+			c.Add("states", 1)
+			c.Nontrivial()
+			n, err := xp10.Parse(src)
+			if err != nil {
+				c.Report(engine.Violation{Key: "harness-reference-parse", Witness: src, Detail: err.Error()})
+				return
+			}
+			vs := compare("depth", src, n.FullyParenthesized(), false)
+			c.Outcome(fmt.Sprintf("depth:viol=%v", len(vs) > 0))
+			for _, v := range vs {
+				c.Report(v)
+			}
+		}
+		for _, op := range []string{"-", "div", "<", "and"} {
+			chain := "2"
+			for n := 2; n <= 40; n++ {
+				chain += " " + op + " 2"
+				deep(chain)
+			}
+		}
+		for d := 1; d <= 24; d++ {
+			deep(strings.Repeat("number(", d) + "1 + 2 * 3" + strings.Repeat(")", d))
+			deep(strings.Repeat("(", d) + "2 * 3" + strings.Repeat(")", d) + " + 4")
+			deep("1 - " + strings.Repeat("(", d) + "2 - 3" + strings.Repeat(")", d) + " - 4")
+			deep(strings.Repeat("n5[", d) + "1 + 2 * 3 = 7" + strings.Repeat("]", d))
+		}
+	}
 	// repeated unary minus (0-3 per operand, written with and without blanks)
 	one := func(src string) {
 		if !c.Owns(src) || !c.Case(src) {
